@@ -15,6 +15,7 @@ const rbql = require(path.join(repo_js, 'rbql.js'));
 const rbql_csv = require(path.join(repo_js, 'rbql_csv.js'));
 
 let unhandled = [];
+let paused_probe = null;
 let dirty = false;
 process.on('unhandledRejection', (reason) => { unhandled.push(String(reason && reason.message || reason).substring(0, 200)); });
 
@@ -281,12 +282,20 @@ async function with_watchdog(promise, counters, max_turns) {
     promise.then((v) => { settled = true; result = {value: v}; }, (e) => { settled = true; result = {error: e}; });
     let after_eof = 0;
     let total = 0;
+    let paused_turns = 0;
     while (!settled) {
         await turns(1);
         counters.turn += 1;
         total += 1;
         if (counters.eof_pushed_turn !== null)
             after_eof += 1;
+        // a real stream that the reader left paused while a request is pending will never deliver: count those turns too
+        if (paused_probe !== null && paused_probe())
+            paused_turns += 1;
+        else
+            paused_turns = 0;
+        if (paused_turns > max_turns)
+            return {hang: true, after_eof: paused_turns, total: total};
         if (after_eof > max_turns || (total > 100000 && !counters.real_io))
             return {hang: true, after_eof: after_eof, total: total};
     }
@@ -348,6 +357,7 @@ function describe_error(e) {
 async function run_read(req) {
     // req: {mode: 'stream'|'bulk'|'fs_stream', plan / hex, encoding, delim, policy, has_header, comment_prefix, pace}
     let counters = {read_calls: 0, chunks_pushed: 0, eof_pushed_turn: null, turn: 0};
+    paused_probe = null;
     let enc = req.encoding;
     let iterator = null;
     let tmp_path = null;
@@ -365,6 +375,7 @@ async function run_read(req) {
                 // real file: the producer is not ours, but its 'end' is observable; liveness is counted from there
                 src.on('end', () => { counters.eof_pushed_turn = counters.turn; });
                 counters.real_io = true;
+                paused_probe = () => src.isPaused();
                 iterator = new rbql_csv.CSVRecordIterator(src, null, enc, req.delim, req.policy, req.has_header, req.comment_prefix);
             }
         }
